@@ -22,11 +22,15 @@ def isLabel (l : Str) : Bool :=
        | none => true
        | some z => isAlnum z && rest.all (fun x => isAlnum x || x == '-'))
 
+/-- the recogniser for `emailRegex` itself -/
+def emailRe (s : Str) : Bool :=
+  match s.span isLocalChar with
+  | (loc, '@' :: dom) => !loc.isEmpty && (splitOn '.' dom).all isLabel
+  | _ => false
+
+/-- `IsEmail`: the length guard, then the expression -/
 def isEmail (s : Str) : Bool :=
   let n := utf8Len s
-  3 ≤ n && n ≤ 254 &&
-    (match s.span isLocalChar with
-     | (loc, '@' :: dom) => !loc.isEmpty && (splitOn '.' dom).all isLabel
-     | _ => false)
+  3 ≤ n && n ≤ 254 && emailRe s
 
 end Anonymongo
